@@ -328,7 +328,16 @@ def conservation_validator(prog: Program, rep, RID: str):
         if cond or any(isinstance(n, (ast.Continue, ast.Break)) for n in ast.walk(inner)):
             rep.violation(RID, key + f":{direction}-sum", f"the sum over {direction} is conditional or leaves the loop early: some edge values are not counted", f.loc(inner))
             continue
-        if not re.search(r"\[%s\]$|\.get\(%s(, 0)?\)$" % (re.escape(A), re.escape(A)), norm(accs[0].value)):
+        summand = accs[0].value
+        # `int(x) if isinstance(x, numbers.Integral) else x` is x (as a Python int where fixed-width integers could wrap around)
+        if isinstance(summand, ast.IfExp) and "isinstance(" in norm(summand.test) and "Integral" in norm(summand.test) and isinstance(summand.body, ast.Call) and \
+                dotted(summand.body.func) == "int" and len(summand.body.args) == 1 and norm(summand.body.args[0]) == norm(summand.orelse):
+            summand = summand.orelse
+        if isinstance(summand, ast.Name):
+            ldefs = [st.value for st in ast.walk(inner) if isinstance(st, ast.Assign) and len(st.targets) == 1 and norm(st.targets[0]) == summand.id]
+            if len(ldefs) == 1:
+                summand = ldefs[0]
+        if not re.search(r"\[%s\]$|\.get\(%s(, 0)?\)$" % (re.escape(A), re.escape(A)), norm(summand)):
             raise AnalysisError(f"check_flow_conservation: summand `{norm(accs[0].value)}` is not the flow attribute of the edge")
         sums.setdefault(direction, []).append(accs[0].target.id)
     if sorted(sums) == ["in_edges", "out_edges"] and all(len(v) == 1 for v in sums.values()) and sums["in_edges"] != sums["out_edges"]:
@@ -368,6 +377,13 @@ def conservation_validator(prog: Program, rep, RID: str):
         else:
             rep.violation(RID, key + ":decision", f"the conservation verdict (`{norm(d.test)}` / `{norm(cl.test)}`) does not answer False on every difference, or uses a tolerance "
                           "above 1e-6", f.loc(guards[0]))
+    elif len(guards) == 1 and len(decs) == 2 and not closes and decs[0] in guards[0].body and decs[1] in guards[0].orelse:
+        d2 = decs[1]
+        if isinstance(d2.test.ops[0], ast.NotEq):
+            rep.violation(RID, key + ":decision", f"non-integral sums are compared exactly as well (`{norm(d2.test)}`): float flows that conserve flow as decimal numbers "
+                          "(0.3 -> 0.1 + 0.2 = 0.30000000000000004) are rejected as non-conserving although they are inside the documented domain", f.loc(d2))
+        else:
+            rep.violation(RID, key + ":decision", f"`if {norm(d2.test)}: {norm(d2.body[0])[:40]}` does not answer False on every difference of inflow and outflow", f.loc(d2))
     elif not guards and len(decs) == 1 and not closes:
         d = decs[0]
         if isinstance(d.test.ops[0], ast.NotEq) and returns_false(d):
